@@ -152,7 +152,7 @@ def check(ctx):
                                        isinstance(x.args[0], ast.Call) and isinstance(x.args[0].func, ast.Attribute) and x.args[0].func.attr == "nansum" and
                                        ast.unparse(kwarg(x.args[0], "dim", 0)) == "-1" for x in red)
             ctx.ob("C18.b", f"{cname}.forward: every part = batchreduce(nansum(clamp(kernel value), dim=-1), 0)", ok, "", f.where)
-    ctx.require("C18.c", "kernel / dedicated terms", nterms, 14)
+    ctx.require("C18.c", "trainers of the delay-adjusted / kernel family", len(FAMILY), 7)
     # the kernel trainers store the user's kernels and kwargs unchanged
     for cname in ("KernelSTDP", "DelayAdjustedKernelSTDP", "DelayAdjustedKernelSTDPD"):
         c = P.cls(cname)
